@@ -1252,3 +1252,20 @@ func init() {
 			}
 			if err != nil {`}}})
 }
+
+func init() {
+	addMutant(Mutant{Name: "c11-blank-patterns-dropped-at-construction", Props: []string{"C11"}, Rule: "R-RULELIST", KeySub: "match-list",
+		Why: "blank patterns are dropped when the authorizer is built; a rule whose patterns are all blank becomes 'applies always' under the evaluator's empty-list convention",
+		Edits: []Edit{{File: "cmds/server/config/authorizers/stringy/stringy.go", Old: `	a.ReduceAll(&user)
+`, New: `	a.ReduceAll(&user)
+	for i := range user.Commands {
+		kept := make([]string, 0, len(user.Commands[i].Match))
+		for _, m := range user.Commands[i].Match {
+			if m != "" {
+				kept = append(kept, m)
+			}
+		}
+		user.Commands[i].Match = kept
+	}
+`}}})
+}
